@@ -51,6 +51,23 @@ def features(ctx, scfg, done):
     return f
 
 
+def _nesting_ok(scfg, limit=64):
+    """no region nested deeper than `limit` (a cyclic hierarchy never ends)"""
+    from numba_scfg.core.datastructures.basic_block import RegionBlock
+
+    stack = [(scfg, 0)]
+    n = 0
+    while stack:
+        sc, d = stack.pop()
+        n += 1
+        if d > limit or n > 100000:
+            return False
+        for b in sc.graph.values():
+            if isinstance(b, RegionBlock) and b.subregion is not None:
+                stack.append((b.subregion, d + 1))
+    return True
+
+
 class GraphCheck:
     """Instantiated by c01..c06 (and reused by others) with a property id, the
     set of oracles to activate and a non-triviality rule."""
@@ -134,6 +151,25 @@ class GraphCheck:
                     shards.append({"kind": "gen", "cls": cls, "seed": seed, "start": 500000 + start,
                                    "count": c, "payload": payload, "faults": 2})
                     start += c
+        # premature-call histories: a stage is called on the same object before
+        # its turn (restructure_branch on the graph that is not closed yet, ...);
+        # when that call - refused or not - leaves the graph as it was, the
+        # pipeline that follows must behave as on a fresh object
+        if getattr(self, "premature_histories", True) and self.stages == "JLB" \
+                and "budget" not in self.profile:
+            shards.append({"kind": "exh", "n": 4, "shard": 0, "nshards": 1, "stride": 2 if quick else 1,
+                           "offset": seed % 2 if quick else 0, "pre": True})
+            for cls, q, t, payload in self.classes:
+                total = max(1, int((q if quick else t) * self.scale * 0.1))
+                per = 100 if quick else 1000
+                if cls in ("cons_large", "cons"):
+                    continue
+                start = 0
+                while start < total:
+                    c = min(per, total - start)
+                    shards.append({"kind": "gen", "cls": cls, "seed": seed, "start": 600000 + start,
+                                   "count": c, "payload": payload, "pre": True})
+                    start += c
         if self.with_real:
             nsh = 16
             for s in range(nsh):
@@ -154,6 +190,9 @@ class GraphCheck:
         for case in self._cases(spec):
             if nf:
                 case["faults"] = nf
+            if spec.get("pre") and "g" in case:
+                case["pre"] = ["B", "L", "LB", "BL", "BB", "BLB"][
+                    int(core.graph_hash(case["g"])[12:16], 16) % 6]
             yield case
 
     def _cases(self, spec):
@@ -260,6 +299,9 @@ class GraphCheck:
             acc.counters.update(ctx.counters)
             acc.counters["skipped_cases"] += 1
             return ctx
+        if case.get("pre"):
+            if not self.premature_calls(case, scfg, ctx, acc):
+                return ctx
         if "budget" in self.profile:
             done = self.run_budgeted(case, scfg, ctx, acc)
         else:
@@ -302,6 +344,54 @@ class GraphCheck:
                         acc.maximum("product_states." + lab, s.get("states", 0))
                         acc.counters["branch_evals." + lab] += s.get("branch_evals", 0)
         return ctx
+
+    def premature_calls(self, case, scfg, ctx, acc):
+        """History prefix: stages called before their turn on this object (no
+        oracle watches them, what they raise is not charged).  -> True when
+        they left the graph exactly as it was (the case goes on), False when
+        they changed it (nothing is claimed about what follows)."""
+        from ..hier import dump
+
+        before = dump(scfg)
+        saved = set(attach.ACTIVE)
+        attach.ACTIVE.clear()
+        core.set_ctx(core.Ctx(None))
+        raised = 0
+        from ..monitors import budget
+
+        budget.install(None)
+        hung = False
+        try:
+            for ch in case["pre"]:
+                budget.start(300_000 + 2000 * len(scfg.graph))
+                try:
+                    getattr(scfg, {"J": "join_returns", "L": "restructure_loop",
+                                   "B": "restructure_branch"}[ch])()
+                except budget.BudgetExceeded:
+                    hung = True  # a stage called out of turn may not come back
+                    break
+                except RecursionError:
+                    raised += 1
+                except Exception:
+                    raised += 1
+                finally:
+                    budget.stop()
+        finally:
+            core.set_ctx(ctx)
+            attach.ACTIVE.update(saved)
+        if hung:
+            acc.counters["premature.call_exceeded_budget_case_dropped"] += 1
+            return False
+        acc.counters["premature.calls_refused"] += raised
+        if not _nesting_ok(scfg):
+            # a premature call can leave a region that contains itself
+            acc.counters["premature.changed_the_graph_case_dropped"] += 1
+            return False
+        if dump(scfg) != before:
+            acc.counters["premature.changed_the_graph_case_dropped"] += 1
+            return False
+        acc.counters["premature.left_graph_unchanged_case_continues"] += 1
+        return True
 
     def run_budgeted(self, case, scfg, ctx, acc):
         """C02 bounded progress: at most 200 n^2 + 10^5 Python calls."""
